@@ -47,6 +47,12 @@ type c15Scheme struct {
 	Name                string
 	Fmt, Str, Lib, Sort string // import names in the source file ("" = plain, "." = dot)
 	LibPkgName          string
+	// AnchorsLast: the declarations that merely keep every import used come after the snippets,
+	// so a snippet is the first declaration that needs its imports in the generated file.
+	AnchorsLast bool
+	// TwoSchemes: the second injector file spells its imports FmtB.. (half of the snippets go there).
+	TwoSchemes                 bool
+	FmtB, StrB, LibB, SortB string
 }
 
 var c15Schemes = []c15Scheme{
@@ -56,6 +62,9 @@ var c15Schemes = []c15Scheme{
 	{Name: "alias-swaps", Fmt: "strings", Str: "fmt", Lib: "sort", Sort: "lib", LibPkgName: "lib"},
 	{Name: "lib-named-like-std", Lib: "", Sort: "s", LibPkgName: "strings2"},
 	{Name: "exported-aliases", Fmt: "F", Str: "S", Lib: "Lib", Sort: "SO", LibPkgName: "fmt2"},
+	{Name: "aliased-anchors-last", Fmt: "ft", Str: "str", Lib: "l", Sort: "srt", LibPkgName: "lib", AnchorsLast: true},
+	{Name: "two-files-same-qualifier-different-packages", Fmt: "x1", Str: "x2", Lib: "x3", Sort: "x4", LibPkgName: "lib", TwoSchemes: true, FmtB: "x2", StrB: "x1", LibB: "x4", SortB: "x3"},
+	{Name: "two-files-plain-then-swapped", LibPkgName: "lib", TwoSchemes: true, FmtB: "strings", StrB: "fmt", LibB: "sort", SortB: "lib", AnchorsLast: true},
 }
 
 func qual(alias, def string) string {
@@ -85,11 +94,21 @@ func c15Program(id string, snips []snippet, sc c15Scheme, base int) *Program {
 	w.WriteString(imp(sc.Fmt, "fmt") + imp(sc.Sort, "sort") + imp(sc.Str, "strings") + imp(sc.Lib, p.ImportPath(1)) + "\t_ \"embed\"\n\t\"github.com/google/wire\"\n)\n\n")
 	p.Extra["0/embed_data.txt"] = "embedded text\n"
 	fq, sq, lq, soq := qual(sc.Fmt, "fmt"), qual(sc.Str, "strings"), qual(sc.Lib, sc.LibPkgName), qual(sc.Sort, "sort")
-	w.WriteString("var _ = " + fq + "Sprint\nvar _ = " + sq + "ToUpper\nvar _ = " + lq + "Const\nvar _ = " + soq + "Strings\n\n")
+	anchors := "var _ = " + fq + "Sprint\nvar _ = " + sq + "ToUpper\nvar _ = " + lq + "Const\nvar _ = " + soq + "Strings\n\n"
+	if !sc.AnchorsLast {
+		w.WriteString(anchors)
+	}
+	scB := sc
+	if sc.TwoSchemes {
+		scB.Fmt, scB.Str, scB.Lib, scB.Sort = sc.FmtB, sc.StrB, sc.LibB, sc.SortB
+	}
+	fqB, sqB, lqB, soqB := qual(scB.Fmt, "fmt"), qual(scB.Str, "strings"), qual(scB.Lib, sc.LibPkgName), qual(scB.Sort, "sort")
 	// the first snippet precedes the first injector; the last one goes to a second injector file
 	nBefore, nSecond := 1, 1
 	if len(snips) < 4 {
 		nBefore, nSecond = 0, 0
+	} else if sc.TwoSchemes {
+		nSecond = len(snips) / 2
 	}
 	probe.WriteString("package app\n\nimport (\n\t\"fmt\"\n\t\"strings\"\n\t\"sort\"\n\tzlib \"" + p.ImportPath(1) + "\"\n\ttr \"" + ModulePath + "/tr\"\n)\n\nvar _ = fmt.Sprint\nvar _ = strings.ToUpper\nvar _ = sort.Strings\nvar _ = zlib.Const\n\nfunc Scenarios() {\n")
 	var kinds []string
@@ -100,8 +119,9 @@ func c15Program(id string, snips []snippet, sc c15Scheme, base int) *Program {
 		if k == nBefore {
 			w.WriteString("// Init is the injector.\nfunc Init() A {\n\twire.Build(NewA)\n\treturn A{}\n}\n\n")
 		}
-		if nSecond > 0 && k == len(snips)-1 {
-			w2.WriteString(r.Replace(sn.Decl) + "\n\n")
+		if nSecond > 0 && k >= len(snips)-nSecond {
+			rB := strings.NewReplacer("$N", n, "{FMT}", fqB, "{STR}", sqB, "{LIB}", lqB, "{SORT}", soqB)
+			w2.WriteString(rB.Replace(sn.Decl) + "\n\n")
 		} else {
 			w.WriteString(r.Replace(sn.Decl) + "\n\n")
 		}
@@ -115,9 +135,17 @@ func c15Program(id string, snips []snippet, sc c15Scheme, base int) *Program {
 	if nBefore >= len(snips) || len(snips) == 0 {
 		w.WriteString("// Init is the injector.\nfunc Init() A {\n\twire.Build(NewA)\n\treturn A{}\n}\n\n")
 	}
+	if sc.AnchorsLast {
+		w.WriteString(anchors)
+	}
 	if w2.Len() > 0 {
-		hdr := "//go:build wireinject\n// +build wireinject\n\npackage app\n\nimport (\n" + imp(sc.Fmt, "fmt") + imp(sc.Sort, "sort") + imp(sc.Str, "strings") + imp(sc.Lib, p.ImportPath(1)) + "\t_ \"embed\"\n\t\"github.com/google/wire\"\n)\n\n"
-		hdr += "var _ = " + fq + "Sprint\nvar _ = " + sq + "ToLower\nvar _ = " + lq + "Const\nvar _ = " + soq + "Ints\n\n"
+		hdr := "//go:build wireinject\n// +build wireinject\n\npackage app\n\nimport (\n" + imp(scB.Fmt, "fmt") + imp(scB.Sort, "sort") + imp(scB.Str, "strings") + imp(scB.Lib, p.ImportPath(1)) + "\t_ \"embed\"\n\t\"github.com/google/wire\"\n)\n\n"
+		anchorsB := "var _ = " + fqB + "Sprint\nvar _ = " + sqB + "ToLower\nvar _ = " + lqB + "Const\nvar _ = " + soqB + "Ints\n\n"
+		if sc.AnchorsLast {
+			w2.WriteString(anchorsB)
+		} else {
+			hdr += anchorsB
+		}
 		p.Extra["0/wire_b.go"] = hdr + w2.String() + "// InitB is the injector of the second file.\nfunc InitB() *A {\n\tpanic(wire.Build(NewPA))\n}\n"
 		p.Extra["0/decl.go"] += "\nfunc NewPA() *A { return &A{X: 2} }\n"
 	}
@@ -483,7 +511,7 @@ func isInjectorDecl(d ast.Decl) bool {
 func CheckC15(e *Env) int {
 	t0 := time.Now()
 	rep := NewReport(e, "C15", "exploration", "a corpus of declaration snippets covering every go/ast node kind that can occur below a declaration (type parameters, explicit instantiation with one and several arguments, labels with goto/break/continue, closures, shadowing of package names, struct tags, iota groups, select/type switch, 3-index slices, variadics, method values...) composed into injector files under six import-alias schemes (plain, aliased, dot-import, swapped aliases, package named like a std package, aliases named like locals); oracle: (structure) declarations parsed back from wire_gen.go are 1:1, in order, alpha-equivalent to the originals with every identifier resolving (go/types on both sides) to the same package-level / universe / imported entity or to the consistently renamed local; (compile) both tag sets build; (behaviour) probe outputs of the copied functions equal those of the originals (driver built with and without -tags wireinject); distinct = (snippet, scheme)")
-	nprog := e.tierN(36, 240)
+	nprog := e.tierN(54, 270)
 	var progs []*Program
 	snipsOf := map[string][]snippet{}
 	for i := 0; i < nprog; i++ {
@@ -506,7 +534,7 @@ func CheckC15(e *Env) int {
 				sn = append(sn, c15Corpus[perm[j]])
 			}
 		}
-		if sc.Str == "" {
+		if sc.Str == "" || (sc.TwoSchemes && sc.StrB == "") {
 			var keep []snippet
 			for _, x := range sn {
 				if !c15NeedsStrAlias[x.Name] {
@@ -518,6 +546,22 @@ func CheckC15(e *Env) int {
 		id := fmt.Sprintf("cp%03d", i)
 		progs = append(progs, c15Program(id, sn, sc, 100))
 		snipsOf[id] = sn
+	}
+	// first-use programs: the snippet is the first declaration of the generated file that needs
+	// its imports (anchors come last), under aliases that differ from the generated import names
+	for i, sn := range c15Corpus {
+		nm := sn.Name
+		if e.Tier != "thorough" && !(strings.Contains(nm, "named-like") || strings.Contains(nm, "hadow") || strings.Contains(nm, "import")) {
+			continue
+		}
+		sc := c15Schemes[6]
+		if sc.Name != "aliased-anchors-last" {
+			panic("scheme order")
+		}
+		id := fmt.Sprintf("cpf%03d", i)
+		list := []snippet{sn, c15Corpus[(i+7)%len(c15Corpus)], c15Corpus[(i+13)%len(c15Corpus)], c15Corpus[(i+29)%len(c15Corpus)]}
+		progs = append(progs, c15Program(id, list, sc, 100))
+		snipsOf[id] = list
 	}
 	kindsSeen := map[string]int{}
 	var batches [][]*Program
